@@ -205,15 +205,22 @@ def observed_outputs(cl, frames, hid, exclude=()):
 
 
 # ---- handler scenarios -------------------------------------------------------------------------
-TRIG_TOPICS = ["trig", "side", "other", "t0", "t1", "t2"]
+TRIG_TOPICS = ["trig", "side", "other", "t0", "t1", "t2", "h1.note", "h2.note"]
 
 
 def gen_prog(r, name, ctxs, k=0):
     """topic graph is acyclic (trig/t<k> -> side -> aux/note) except for the self-loop on the
     handler's own guard topic, which its stamp must break (C14: never its own output)"""
     own = f"t{k}"
-    guard = r.choice(["trig", "trig", own, "side"])
-    outs = ["aux", name + ".note"] if guard == "side" else ["side", "aux", name + ".note", guard if guard == own else "side"]
+    # name + ".note": frames under the handler's own name prefix that are NOT registration traffic
+    # (left by an earlier instance of the same name, or appended by a client) must be processed too
+    guard = r.choice(["trig", "trig", own, "side", name + ".note"])
+    if guard == "side":
+        outs = ["aux", name + ".note"]
+    elif guard == name + ".note":
+        outs = ["aux"]
+    else:
+        outs = ["side", "aux", name + ".note", guard if guard == own else "side"]
     appends = []
     for _ in range(r.choice([0, 0, 1, 2, 3])):
         appends.append(dict(
@@ -246,7 +253,7 @@ def run_handler_scenario(seed, n_events=14):
         forged = set()
         # some history before any handler exists
         pre = []
-        for _ in range(r.choice([0, 2, 4])):
+        for _ in range(r.choice([0, 3, 6])):
             i = cl.append(r.choice(TRIG_TOPICS), ctx=r.choice(ctxs), body=b"pre")
             if i:
                 pre.append(i)
@@ -282,7 +289,7 @@ def run_handler_scenario(seed, n_events=14):
         for _ in range(n_events):
             k = r.choices(["trig", "other", "register", "unregister", "forged", "burst"], [8, 3, 2, 1, 1, 1])[0]
             if k == "trig":
-                cl.append(r.choice(["trig", "trig", "side", "t0", "t1"]), ctx=r.choice(ctxs), body=b"t"); report["triggers"] += 1
+                cl.append(r.choice(["trig", "trig", "side", "t0", "t1", "h1.note", "h2.note"]), ctx=r.choice(ctxs), body=b"t"); report["triggers"] += 1
             elif k == "other":
                 cl.append(r.choice(TRIG_TOPICS), ctx=r.choice(ctxs))
             elif k == "register":
@@ -793,3 +800,121 @@ def run_generator_scenario(seed, wait_s=2.6):
         return rep
     finally:
         cl.close()
+
+
+# ---- content store scenarios (C10) -----------------------------------------------------------------
+def run_cas_scenario(seed):
+    """byte strings through every HTTP entry point, a racing follower, nu entry points, and a restart"""
+    import hashlib, base64, socket
+    r = random.Random(seed)
+    cl = Client("api,handlers,commands,generators")
+    rep = dict(seed=seed, violations=[], writes=0, reads=0, raced=0, sizes=[])
+    try:
+        bodies = [b"", b"\x00", b"a", bytes([255, 254, 0, 1, 128]), b"z" * 8191, b"y" * 8192, b"x" * 8193,
+                  bytes(r.randrange(256) for _ in range(100 * 1024)), "héllo".encode()]
+        r.shuffle(bodies)
+        integ = lambda b: "sha256-" + base64.b64encode(hashlib.sha256(b).digest()).decode()
+        # a follower racing every append: as soon as a frame with a hash is delivered its content must be there
+        s = socket.socket(socket.AF_UNIX, socket.SOCK_STREAM)
+        s.settimeout(0.05)
+        s.connect(cl.sock)
+        s.sendall(H.render("GET", "/?follow=true&tail=true", {"Connection": "keep-alive"}))
+        buf = b""
+        def pump():
+            nonlocal buf
+            try:
+                while True:
+                    ch = s.recv(1 << 16)
+                    if not ch:
+                        break
+                    buf += ch
+            except (socket.timeout, BlockingIOError):
+                pass
+            lines = buf.split(b"\n")
+            buf = lines[-1]
+            for l in lines[:-1]:
+                l = l.strip()
+                if l.startswith(b"{") and b'"hash"' in l:
+                    try:
+                        f = json.loads(l)
+                    except Exception:
+                        continue
+                    if f.get("hash"):
+                        rep["raced"] += 1
+                        got = cl.cas(f["hash"])
+                        if got is None:
+                            rep["violations"].append(dict(what=f"a follower was sent frame {f['id']} (topic {f['topic']}) carrying hash "
+                                                               f"{f['hash']} but the content is not retrievable"))
+        time.sleep(0.2)
+        seen = {}
+        for b in bodies:
+            rep["sizes"].append(len(b))
+            # POST /cas
+            st, hd, out = cl.request(H.render("POST", "/cas", body=b))
+            if b:
+                rep["writes"] += 1
+                if st != 200 or out.decode() != integ(b):
+                    rep["violations"].append(dict(what=f"POST /cas of {len(b)} bytes answered {st} {out[:80]!r}, expected the hash {integ(b)}"))
+            elif st != 400:
+                rep["violations"].append(dict(what=f"POST /cas with an empty body answered {st}"))
+            # POST /{topic}
+            st, hd, out = cl.request(H.render("POST", "/blob", body=b))
+            rep["writes"] += 1
+            if st != 200:
+                rep["violations"].append(dict(what=f"POST /blob of {len(b)} bytes answered {st}"))
+                continue
+            f = json.loads(out)
+            if not b:
+                if f.get("hash") is not None:
+                    rep["violations"].append(dict(what=f"an append without a body produced a frame with hash {f.get('hash')}"))
+            else:
+                if f.get("hash") != integ(b):
+                    rep["violations"].append(dict(what=f"append of {len(b)} bytes reported hash {f.get('hash')}, the bytes hash to {integ(b)}"))
+                got = cl.cas(f["hash"]); rep["reads"] += 1
+                if got != b:
+                    rep["violations"].append(dict(what=f"content of {len(b)} bytes is not returned byte for byte by its hash "
+                                                       f"(got {None if got is None else len(got)} bytes)"))
+                seen[f["hash"]] = b
+            pump()
+        # nu entry points: a handler's buffered .append + return value, a command's output
+        hid = cl.append("h.register", body=('{ run: {|frame| if $frame.topic != "go" { return }; "from-append" | .append note; "ret-val" } }').encode())
+        cl.wait_topic("h.registered", after=hid or 0)
+        cl.append("c.define", body=b'{ run: {|frame| ["cmd-out"] } }')
+        cl.settle(0.2, 3)
+        cl.append("go"); cl.append("c.call"); cl.append("g.spawn", body=b'"gen-out"')
+        cl.settle(0.4, 8)
+        pump()
+        expect = {"note": b"from-append", "h.out": b'"ret-val"', "c.recv": b'"cmd-out"', "g.recv": b"gen-out"}
+        for f in cl.frames():
+            if f["topic"] in expect and f["hash"]:
+                want = expect[f["topic"]]
+                got = cl.cas(f["hash"]); rep["reads"] += 1
+                if f["hash"] != integ(want) or got != want:
+                    rep["violations"].append(dict(what=f"{f['topic']}: content {want!r} stored under {f['hash']} (expected {integ(want)}), read back {got!r}"))
+                seen[f["hash"]] = want
+        s.close()
+        # across a restart: same hash, same bytes
+        path = cl.path
+        cl.kill()
+        cl2 = Client("api", path=path)
+        try:
+            for h, b in seen.items():
+                got = cl2.cas(h); rep["reads"] += 1
+                if got != b:
+                    rep["violations"].append(dict(what=f"after a restart the content under {h} is {None if got is None else len(got)} bytes, expected {len(b)}"))
+            for f in cl2.frames():
+                if f["hash"] and cl2.cas(f["hash"]) is None:
+                    rep["violations"].append(dict(what=f"after a process kill frame {f['topic']} carries hash {f['hash']} whose content is missing"))
+            # same bytes again -> same hash
+            for b in bodies[:3]:
+                if b:
+                    st, hd, out = cl2.request(H.render("POST", "/cas", body=b))
+                    if out.decode() != integ(b):
+                        rep["violations"].append(dict(what="the same bytes hash differently after a restart"))
+        finally:
+            cl2.close()
+        cl = None
+        return rep
+    finally:
+        if cl is not None:
+            cl.close()
